@@ -19,6 +19,11 @@ import tempfile
 import time
 import warnings
 
+import sys
+from pathlib import Path
+
+sys.path.insert(0, str(Path(__file__).resolve().parent.parent.parent))
+
 import numpy as np
 
 from harness import core
@@ -238,6 +243,27 @@ def controlled_build(sc, cm, k, npairs, orders, layer_rank):
     return out, fake.pools, sch.log
 
 
+def _hash(a):
+    import hashlib
+    a = np.ascontiguousarray(a)
+    return hashlib.sha256(a.tobytes() + str(a.shape).encode() + str(a.dtype).encode()).hexdigest()[:24]
+
+
+def pristine_hashes(nw):
+    """matrix hashes of the two equal-valued systems (single / double precision profile), each built ALONE single-process in a fresh interpreter"""
+    import subprocess
+    import sys
+    out = {}
+    procs = {k: subprocess.Popen([sys.executable, "-B", os.path.abspath(__file__), "--pristine", k, str(nw)], stdout=subprocess.PIPE, stderr=subprocess.PIPE, text=True)
+             for k in ("single", "double")}
+    for k, p in procs.items():
+        o, e = p.communicate(timeout=600)
+        if p.returncode != 0:
+            raise core.MachineryError("pristine covariance worker failed: " + e[-400:])
+        out[k] = o.strip().splitlines()[-1]
+    return out
+
+
 def same_bits(a, b):
     return a.shape == b.shape and a.dtype == b.dtype and a.tobytes() == b.tobytes()
 
@@ -398,6 +424,7 @@ def run(run):
                                              layer_r0s=np.array([0.15, 0.3, 0.5]), layer_L0s=np.array([25.0, 40.0, 30.0]))),
                        ("layer-above-rayleigh-guide-star", dict(gs_altitudes=np.array([0.0, 6000.0, 12000.0][:nw]),
                                                                 layer_altitudes=np.array([0.0, 8000.0]))),
+                       ("identical-masks", dict(pupil_masks=np.array([g0["pupil_masks"][0]] * nw))),
                        ("equal-wavelengths-unequal-diameters", dict(wfs_wavelengths=np.array([600e-9] * nw),
                                                                     subap_diameters=np.array([1.0, 0.5, 1.0][:nw])))):
         ref2 = np.array(new_object(sc, nw, mod=mod).make_covariance_matrix(), copy=True)
@@ -409,6 +436,24 @@ def run(run):
             if not same_bits(out, ref2) or not same_bits(out2, ref2):
                 run.violation("covariance-build:not-bit-identical:%s" % label, dict(k=kk), dict(kind="dtype", nw=nw, label=label))
                 break
+    # ---- nothing is carried from one OBJECT to another either: a system whose profile is given in single precision is built first,
+    #      then the same numbers in double precision - each must be bit-identical to what a fresh interpreter builds for it alone
+    r0_32 = np.array([0.17, 0.31], dtype=np.float32)
+    L0_32 = np.array([22.0, 37.0], dtype=np.float32)
+    mods = dict(single=dict(layer_r0s=r0_32, layer_L0s=L0_32), double=dict(layer_r0s=r0_32.astype(float), layer_L0s=L0_32.astype(float)))
+    pristine = pristine_hashes(nw)
+    cm_a = new_object(sc, nw, mod=mods["single"])
+    out_a, _, _ = controlled_build(sc, cm_a, 2, npairs, [list(range(1, npairs + 1))] * 2, [0, 1])
+    out_a1 = np.array(new_object(sc, nw, mod=mods["single"]).make_covariance_matrix(), copy=True)
+    out_b = np.array(new_object(sc, nw, mod=mods["double"]).make_covariance_matrix(), copy=True)
+    out_b2, _, _ = controlled_build(sc, new_object(sc, nw, mod=mods["double"]), 3, npairs, [list(range(npairs, 0, -1))] * 2, [1, 0])
+    n_builds += 4
+    for label, arr, key in (("single-precision-profile:pool", out_a, "single"), ("single-precision-profile", out_a1, "single"),
+                            ("double-precision-profile-after-single", out_b, "double"), ("double-precision-profile-after-single:pool", out_b2, "double")):
+        if _hash(arr) != pristine[key]:
+            run.violation("covariance-build:differs-from-fresh-interpreter:" + label, dict(note="state carried between objects / builds of one process"),
+                          dict(kind="pristine", nw=nw))
+            break
     n_builds += n_reconf
     if pools_seen == 0:
         run.notes.append("the library never asked for a pool during controlled builds (threads > 1 path changed?)")
@@ -463,6 +508,14 @@ def replay(run, case):
     from aotools.turbulence import slopecovariance as sc
     warnings.simplefilter("ignore")
     nw = case.get("nw", 2)
+    if case.get("kind") == "pristine":
+        r0_32, L0_32 = np.array([0.17, 0.31], dtype=np.float32), np.array([22.0, 37.0], dtype=np.float32)
+        pr = pristine_hashes(nw)
+        a1 = np.array(new_object(sc, nw, mod=dict(layer_r0s=r0_32, layer_L0s=L0_32)).make_covariance_matrix(), copy=True)
+        b1 = np.array(new_object(sc, nw, mod=dict(layer_r0s=r0_32.astype(float), layer_L0s=L0_32.astype(float))).make_covariance_matrix(), copy=True)
+        if _hash(a1) != pr["single"] or _hash(b1) != pr["double"]:
+            run.violation("covariance-build:differs-from-fresh-interpreter", {}, case)
+        return
     ref = np.array(new_object(sc, nw).make_covariance_matrix(), copy=True)
     if case.get("kind") == "controlled":
         rec, npairs = case["rec"], case["npairs"]
@@ -479,3 +532,15 @@ def replay(run, case):
         out, _ = real_pool_build(sc, nw, case["k"], {(2, 1): 0.05}, keys)
         if not same_bits(out, ref):
             run.violation("covariance-build:not-bit-identical:real-pool", {}, case)
+
+
+if __name__ == "__main__":
+    import sys
+    if len(sys.argv) == 4 and sys.argv[1] == "--pristine":
+        sys.path.insert(0, str(core.VERIF))
+        warnings.simplefilter("ignore")
+        core.import_aotools()
+        from aotools.turbulence import slopecovariance as _sc
+        r0_32, L0_32 = np.array([0.17, 0.31], dtype=np.float32), np.array([22.0, 37.0], dtype=np.float32)
+        mod_ = dict(layer_r0s=r0_32, layer_L0s=L0_32) if sys.argv[2] == "single" else dict(layer_r0s=r0_32.astype(float), layer_L0s=L0_32.astype(float))
+        print(_hash(np.array(new_object(_sc, int(sys.argv[3]), mod=mod_).make_covariance_matrix(), copy=True)))
